@@ -33,6 +33,22 @@ def step (st : St) (line : String) : St × Option String :=
   | "q" :: "enum" :: amount :: args =>
       let (cur, res) := enumerate st.nodes st.n st.cursor (parseInts args) (amount.toNat?.getD 0)
       ({ st with cursor := cur }, some ("enum " ++ (match res with | some cs => fmtCfgs cs | none => "none")))
+  | "q" :: "msg" :: rest =>
+      -- `q msg <implementation's reply> ||| <message>`: does the model's reply match?
+      let implToks := rest.takeWhile (· ≠ "|||")
+      let msgToks := (rest.dropWhile (· ≠ "|||")).drop 1
+      let impl := " ".intercalate implToks
+      let (cur, reply) := Msg.handle st.nodes st.n st.cursor (" ".intercalate msgToks)
+      let norm := fun (s : String) => " ".intercalate ((s.split Char.isWhitespace).toList.map (·.toString) |>.filter (· ≠ ""))
+      let isErr := fun (s : String) => match s.toList with
+        | 'E' :: d :: ' ' :: _ => d.isDigit
+        | _ => false
+      let verdict := match reply with
+        | .ok (some t) => if norm t == impl then "agree" else s!"DISAGREE model=ok {t}"
+        | .ok none => if !isErr impl then "agree" else "DISAGREE model=ok ?"
+        | .err c (some t) => if norm t == impl then "agree" else s!"DISAGREE model={t}"
+        | .err c none => if impl.startsWith s!"E{c} " then "agree" else s!"DISAGREE model=E{c} ?"
+      ({ st with cursor := cur }, some ("msg " ++ verdict))
   | ["q", "enumreset"] => ({ st with cursor := [] }, some "enumreset ok")
   | "q" :: kind :: args => (st, some (kind ++ " " ++ answer st.nodes st.n kind args))
   | [] => (st, none)
